@@ -645,14 +645,3 @@ Qed.
 
 Corollary lvn_preserves w f : wf_func f = true -> refines w (lvn f) f.
 Proof. intros H. apply refines_add_refines. now apply lvn_preserves_add. Qed.
-
-(* one round of the per-function pipeline with value numbering on *)
-Lemma round_preserves w f f1 fl :
-  wf_func f = true -> ccp f = Some (f1, fl) -> fst fl = false -> wf_func f1 = true -> wf_func (lvn f1) = true ->
-  refines_add w (dce (lvn f1)) f.
-Proof.
-  intros H1 H2 H3 H4 H5.
-  apply (refines_add_trans w f f1); [exact (ccp_gen_preserves_add ver_now w f f1 fl H1 H2 H3)|].
-  apply (refines_add_trans w f1 (lvn f1)); [exact (lvn_preserves_add w f1 H4)|].
-  intros args fuel v tr Hs. exact (dce_preserves_mode Add w (lvn f1) args fuel v tr H5 Hs).
-Qed.
